@@ -30,7 +30,9 @@ Lost(a, b) ==
 Range(s) == {s[i] : i \in 1..Len(s)}
 
 (* ---- C12, tier 1 ---- *)
-SameLineWitness(r) == r.hasModel /\ BodyHasSameLinePair(r.file.body)
+(* a witness of a recorded defect is consulted only while that defect is pinned (open): once it is repaired, an          *)
+(* observation of its old shape has to find another explanation or is a violation                                       *)
+SameLineWitness(r) == "SameLineStatementsGlued" \in Devs /\ r.hasModel /\ BodyHasSameLinePair(r.file.body)
 C12Rows(r) ==
   IF ~r.ok THEN <<>>                                                   \* programs with parse errors are outside C12
   ELSE IF r.panic # "" THEN <<V(r.id, "violation", "", "formatter or parser panicked: " \o r.panic)>>
@@ -46,7 +48,7 @@ C12Rows(r) ==
                 ELSE IF SameLineWitness(r) THEN <<V(r.id, "deviation", "SameLineStatementsGlued", meaning)>>
                 ELSE <<V(r.id, "violation", "", meaning)>>
        rowsC == IF lost = <<>> THEN <<>>
-                ELSE IF Range(lost) \subseteq Range(r.dropgap) THEN <<V(r.id, "deviation", "OpenBraceGapDropped", "comment in front of a block's opening brace deleted: " \o lost[1])>>
+                ELSE IF "OpenBraceGapDropped" \in Devs /\ Range(lost) \subseteq Range(r.dropgap) THEN <<V(r.id, "deviation", "OpenBraceGapDropped", "comment in front of a block's opening brace deleted: " \o lost[1])>>
                 ELSE <<V(r.id, "violation", "", "comment lost or reordered: " \o (CHOOSE c \in Range(lost) \ Range(r.dropgap) : TRUE))>>
        (* tier 2 *)
        pred == Format(r.file, r.opts)
@@ -85,24 +87,27 @@ FirstDiff(r) ==
 ElseDrift(r) ==
   LET D1(i) == BlankBeforeElse(r.lines, i)
       D2(i) == BlankBeforeElse(r.lines2, i)
-  IN r.opts.brace = "new" /\ Keep(r.lines, D1) = Keep(r.lines2, D2)
+  IN "ElseOnNewLineGainsBlankLine" \in Devs /\ r.opts.brace = "new" /\ Keep(r.lines, D1) = Keep(r.lines2, D2)
 LabelCommentDrift(r) ==
   LET D1(i) == BlankAfterLabelComment(r.lines, i)
       D2(i) == BlankAfterLabelComment(r.lines2, i)
   IN Keep(r.lines, D1) = Keep(r.lines2, D2)
+ElseOpen == "ElseOnNewLineGainsBlankLine" \in Devs
 CombinedDrift(r) ==          \* several of the recorded drifts in one file
-  LET D1(i) == BlankAfterCont(r.lines, i) \/ (r.opts.brace = "new" /\ BlankBeforeElse(r.lines, i)) \/ BlankAfterLabelComment(r.lines, i)
-      D2(i) == BlankAfterCont(r.lines2, i) \/ (r.opts.brace = "new" /\ BlankBeforeElse(r.lines2, i)) \/ BlankAfterLabelComment(r.lines2, i)
+  LET D1(i) == BlankAfterCont(r.lines, i) \/ (ElseOpen /\ r.opts.brace = "new" /\ BlankBeforeElse(r.lines, i)) \/ BlankAfterLabelComment(r.lines, i)
+      D2(i) == BlankAfterCont(r.lines2, i) \/ (ElseOpen /\ r.opts.brace = "new" /\ BlankBeforeElse(r.lines2, i)) \/ BlankAfterLabelComment(r.lines2, i)
   IN OnlyContLinesDiffer(Keep(r.lines, D1), Keep(r.lines2, D2))
 C13Rows(r) ==
   IF ~r.ok \/ r.panic # "" \/ ~r.reparse_ok THEN <<>>                  \* then format(p) is not a formatter input at all (C12 reports it)
   ELSE IF r.fmt2 = r.fmt THEN <<>>
   ELSE IF r.lines = r.lines2 THEN <<V(r.id, "violation", "", "format(format(p)) differs from format(p) (ill-formed record: the line lists agree)")>>
   ELSE IF SameLineWitness(r) /\ r.ast # r.ast_fmt THEN <<V(r.id, "deviation", "SameLineStatementsGlued", "glued statements re-parse differently: " \o FirstDiff(r))>>
+  ELSE IF "SameLineStatementsGlued" \in Devs /\ r.hasModel /\ BodySharesLine(r.file.body) /\ SelectSeq(r.lines, LAMBDA x : x.s # "") = SelectSeq(r.lines2, LAMBDA x : x.s # "")
+       THEN <<V(r.id, "deviation", "SameLineStatementsGlued", "statements sharing a source line get their separating blank line only on the second run")>>
   ELSE IF ContinuationDrift(r) THEN <<V(r.id, "deviation", "BlockCommentContinuationPadded", "continuation line of a block comment is re-indented on every run: " \o FirstDiff(r))>>
   ELSE IF ElseDrift(r) THEN <<V(r.id, "deviation", "ElseOnNewLineGainsBlankLine", "second run inserts a blank line in front of else or a bare {")>>
   ELSE IF LabelCommentDrift(r) THEN <<V(r.id, "deviation", "LabelCommentLineGainsBlankLine", "second run inserts a blank line after a label line (label + comment, or label wider than the margin)")>>
-  ELSE IF CombinedDrift(r) THEN <<V(r.id, "deviation", IF HasCont(r) THEN "BlockCommentContinuationPadded" ELSE "ElseOnNewLineGainsBlankLine",
+  ELSE IF CombinedDrift(r) THEN <<V(r.id, "deviation", IF HasCont(r) THEN "BlockCommentContinuationPadded" ELSE IF ElseOpen THEN "ElseOnNewLineGainsBlankLine" ELSE "LabelCommentLineGainsBlankLine",
                                     "several recorded drifts in one file: " \o FirstDiff(r))>>
   ELSE <<V(r.id, "violation", "", "format(format(p)) differs from format(p): " \o FirstDiff(r))>>
 
